@@ -2,6 +2,15 @@
 """Generate MANIFEST.json from the table below (single source of truth)."""
 import json, subprocess
 CHECKS = {
+ "C10": ("exploration", "race detector + solo-vs-concurrent differential + schedule perturbation at hooked sync points + offline trace checker + deadlock watchdog",
+         "A stress mix of every public entry point (blocking writers, equal sizes so pools collide) runs in a -race build and in a normal build where each concurrent result must equal its solo result; multi-worker lossy encodes run under seeded perturbation policies at the hooked row-synchronisation points, must equal the single-worker bytes, and their event traces are checked against the row protocol; a hung child is a deadlock only if its goroutine dump shows workers parked in the row wait.",
+         "Schedules are sampled, not enumerated; the trace order is sound because MB-end is logged before the signal and MB-begin after the wait returns.", "3/C10"),
+ "C11": ("exploration", "history monitor: every result in long-lived processes vs the same call as first call of a fresh process; returned buffers re-hashed; pool-reuse counters prove collisions",
+         "All ordered pairs of a 43-entry core plus random call sequences (length 3..30) over a catalogue built to collide in every pool, with GC disabled (pooled objects survive) or forced between calls; any deviation from the fresh-process reference or any change to a previously returned buffer is a violation.",
+         "Pool hook H4 counts actual reuse; a run in which some pool was never hit fails as 'observed nothing'.", "3/C11"),
+ "C13": ("exploration", "three-build differential (AVX2 / SSE2 / portable overlay build) on pipeline digests + cross-compilation of the module for GOOS/GOARCH targets",
+         "The same case list is executed by three builds of the current tree and all digests must coincide; go build ./... is run for 14 representative targets in quick and for every `go tool dist list` pair in thorough.",
+         "arm64 assembly and 32-bit targets are compile-checked only (cannot execute here).", "3/C13"),
  "C06": ("exploration", "hooked-state monitor: encoder reconstruction planes (per-pass hook) vs three decoders' pre-deblocking output",
          "A build-tag hook exports the planes the encoder used as prediction reference after the pass whose tokens are emitted (and again at return); they must equal libwebp's bypass_filtering output, x/image's unfiltered output and, for filter-off streams, webp.Decode, bit for bit, over the lossy option space incl. multi-pass/target-size and forced worker counts.",
          "Hook H5 (internal/verifhook.FramePass) is add-only; libwebp/x-image agreement is required before a verdict (otherwise inconclusive).", "3/C06"),
